@@ -31,6 +31,7 @@ FZ = 'hszinc/zoneinfo.py'
 def run(ctx):
     m = ctx.model
     _map(ctx, m)
+    map_publication(ctx, m, 'C17.D1')
     _api(ctx, m)
     _timezone_name(ctx, m)
     zone_applied(ctx, m, 'C17.D2', 'zincparser', '_parse_datetime', 'zinc')
@@ -148,6 +149,67 @@ def _map(ctx, m):
             ctx.error('C17.D1', 'timezone() not recognised')
     except AnalysisError as e:
         ctx.error('C17.D1', str(e))
+
+
+def map_publication(ctx, m, rule):
+    """The name<->zone tables are read without a lock by every reader and writer thread (timezone(), timezone_name()).
+    Decides: the module-level tables the accessors hand out are never changed in place -- no subscript store, no
+    update()/setdefault()/pop()/clear() on them anywhere in zoneinfo.py; they are built aside and bound by assignment.
+    A table filled in place is visible half-built: a second thread's timezone('Berlin') raises ValueError while the
+    first thread is still at 'Asia/...', the readers' handler swallows it and the date-time keeps a fixed offset
+    instead of its zone."""
+    try:
+        mod = m.mod('zoneinfo')
+    except AnalysisError as e:
+        ctx.error(rule, str(e))
+        return
+    tables = set()
+    for acc in ('get_tz_map', 'get_tz_rmap'):
+        try:
+            af = m.func('zoneinfo', acc)
+        except AnalysisError as e:
+            ctx.error(rule, str(e))
+            return
+        for n in walk_no_nested(af):
+            if isinstance(n, ast.Return) and isinstance(n.value, ast.Name):
+                tables.add(n.value.id)
+    if not tables:
+        ctx.error(rule, 'accessors of the zone tables not recognised')
+        return
+    hits = []
+    for n in ast.walk(mod.tree):
+        tgt = []
+        if isinstance(n, ast.Assign):
+            tgt = n.targets
+        elif isinstance(n, ast.AugAssign):
+            tgt = [n.target]
+        elif isinstance(n, ast.Delete):
+            tgt = n.targets
+        for t in tgt:
+            for x in (t.elts if isinstance(t, (ast.Tuple, ast.List)) else [t]):
+                if isinstance(x, ast.Subscript) and isinstance(x.value, ast.Name) and x.value.id in tables:
+                    hits.append(n)
+        if isinstance(n, ast.AugAssign) and isinstance(n.target, ast.Name) and n.target.id in tables:
+            hits.append(n)
+        if isinstance(n, ast.Call) and isinstance(n.func, ast.Attribute) and isinstance(n.func.value, ast.Name) \
+                and n.func.value.id in tables and n.func.attr in ('update', 'setdefault', 'pop', 'popitem', 'clear', '__setitem__',
+                                                                  '__delitem__'):
+            hits.append(n)
+    if not hits:
+        ctx.ob(rule, 'the zone tables %s are bound by assignment only, never changed in place: a reader sees no table or a '
+                     'complete one' % ', '.join(sorted(tables)), True, FZ)
+        return
+    n = hits[0]
+    p = n
+    while p is not None and not isinstance(p, ast.FunctionDef):
+        p = getattr(p, '_parent', None)
+    ctx.violation(rule, '%s::%s' % (FZ, p.name if p is not None else '<module>'), norm(n),
+                  'thread A triggers the first build of the zone tables and has filled them up to "Asia/..."; thread B parses '
+                  '"t:2020-06-01T12:00:00+02:00 Berlin": the table is no longer empty, so it is not rebuilt, "Berlin" is not in it '
+                  'yet, timezone() raises ValueError, the reader\'s handler keeps the fixed +02:00 offset and the zone name is lost '
+                  '(a writer thread gets ValueError from timezone_name for a mapped zone)',
+                  'the table is changed in place by `%s` (%d site(s)): it is visible to other threads while half built or half '
+                  'updated' % (norm(n)[:70], len(hits)), file=FZ, line=n.lineno, engine='E7')
 
 
 def _api(ctx, m, rule='C17.D2', only=None, conversions_only=False):
@@ -324,8 +386,49 @@ def _timezone_name(ctx, m, rule='C17.D3'):
                 ctx.violation(rule, '%s::timezone_name' % FZ, norm(p) if p is not None else norm(n),
                               'a +05:00 fixed-offset value is written with the zone UTC', 'return "UTC" is not guarded by '
                               'offset == timedelta(0)', file=FZ, line=n.lineno, engine='E6')
+    # the name of a tzinfo is its pytz zone name and nothing else: the readers re-apply the name through pytz, so only a
+    # pytz tzinfo (attribute `zone`) guarantees that the named zone has the value's offset at that instant
+    foreign = []
+    for n in walk_no_nested(fn):
+        if not (isinstance(n, ast.Return) and isinstance(n.value, ast.Subscript) and norm(n.value.value) == rmap):
+            continue
+        key = n.value.slice
+        srcs = [key]
+        if isinstance(key, ast.Name):
+            srcs = [x.value for x in walk_no_nested(fn) if isinstance(x, ast.Assign) and len(x.targets) == 1
+                    and norm(x.targets[0]) == key.id]
+        for src in srcs:
+            attrs = None
+            if isinstance(src, ast.Attribute) and norm(src.value) == '%s.tzinfo' % dt:
+                attrs = [src.attr]
+            elif isinstance(src, ast.Call) and norm(src.func) == 'getattr' and len(src.args) >= 2 \
+                    and norm(src.args[0]) == '%s.tzinfo' % dt:
+                a = src.args[1]
+                if isinstance(a, ast.Constant) and isinstance(a.value, str):
+                    attrs = [a.value]
+                elif isinstance(a, ast.Name):
+                    for lp_ in walk_no_nested(fn):
+                        if isinstance(lp_, ast.For) and isinstance(lp_.target, ast.Name) and lp_.target.id == a.id \
+                                and isinstance(lp_.iter, (ast.Tuple, ast.List)) \
+                                and all(isinstance(e, ast.Constant) and isinstance(e.value, str) for e in lp_.iter.elts):
+                            attrs = [e.value for e in lp_.iter.elts]
+            if attrs is None:
+                continue
+            for a in attrs:
+                if a != 'zone':
+                    foreign.append((n, a))
+    if foreign:
+        n, a = foreign[0]
+        ctx.violation(rule, '%s::timezone_name' % FZ, norm(n),
+                      'a date-time whose tzinfo is the standard library\'s zoneinfo.ZoneInfo("America/New_York") at '
+                      '2040-07-15T08:30:15-04:00 (pytz\'s tables end in 2037, the system database goes on): the name New_York is '
+                      'written without comparing offsets, the reader applies pytz\'s New_York (-05:00 at that instant) and '
+                      'returns 07:30:15-05:00 -- neither a zone with the value\'s offset nor ValueError',
+                      'the zone name is taken from the attribute `%s` of the tzinfo and looked up in the name table without the '
+                      'offset test; only pytz\'s own `zone` attribute names a zone of the database the readers use' % a,
+                      file=FZ, line=n.lineno, engine='E6')
     # scan
-    loops = [x for x in body if isinstance(x, ast.For)]
+    loops = [x for x in body if isinstance(x, ast.For) and rmap in norm(x.iter)] or [x for x in body if isinstance(x, ast.For)]
     if len(loops) != 1:
         ctx.error(rule, 'fallback scan loop not found')
         return
